@@ -62,6 +62,8 @@ def run(ctx, rep):
     rep.assume("NUL inside an argument is outside the property's alphabet; I/O errors are not modelled")
     _codecs.fresh_output_files(F, rep, "C04.fresh-file", ["compiler"], 1)
     entry_key(F, rep)
+    from props import _strunits
+    _strunits.unit_mix(F, rep, "C04.index-unit", ["compiler", "bytecode"])
     log_arguments(F, rep)
     rep.assume("a character not compared against any constant by the reader behaves like the class representative 'x' (the reader touches "
                "characters only through comparisons with constants and char::is_whitespace)")
